@@ -66,6 +66,7 @@ pub fn order_rules() -> Vec<Rewrite> { vec![
         "(mergejoin ?type ?cond ?lkey ?rkey ?left ?right)"
         if is_orderby("?lkey", "?left")
         if is_orderby("?rkey", "?right")
+        if has_merge_join("?type")
     ),
     rw!("sort-agg";
         "(hashagg ?keys ?aggs ?child)" =>
@@ -75,6 +76,18 @@ pub fn order_rules() -> Vec<Rewrite> { vec![
 ]}
 
 /// Returns true if the plan is ordered by the keys.
+/// Returns true if the executor has a merge join for this join type (it has none for semi and
+/// anti joins, which stay hash joins).
+fn has_merge_join(ty: &str) -> impl Fn(&mut EGraph, Id, &Subst) -> bool {
+    let ty = var(ty);
+    move |egraph, _, subst| {
+        !egraph[subst[ty]]
+            .nodes
+            .iter()
+            .any(|n| matches!(n, Expr::Semi | Expr::Anti))
+    }
+}
+
 fn is_orderby(keys: &str, plan: &str) -> impl Fn(&mut EGraph, Id, &Subst) -> bool {
     let keys = var(keys);
     let plan = var(plan);
